@@ -1,6 +1,6 @@
 (* C11 — automatic updates never widen what the project trusts. *)
-Require Import Base Extracted Criteria Search AuditGraph DepGraph Resolve Update.
-Require Import CriteriaProofs UpdateProofs.
+Require Import Base Extracted Criteria Search AuditGraph DepGraph Resolve Update Commands Witness.
+Require Import CriteriaProofs ResolveProofs UpdateProofs NeverWidens.
 Local Open Scope N_scope.
 
 (* Every per-crate update that get_store_updates returns is [update_pkg] applied to
@@ -84,6 +84,43 @@ Proof.
   exact (required_entries_exemptions _ _ _ _ _ _ _ Hm Hr _ _ _ Hg Hc).
 Qed.
 
+(* The statement as a whole, at the level of meaning: an automatic update (any update none of whose
+   searches runs in RegenerateExemptions mode) certifies NOTHING that the store the command loaded —
+   the live store: what peers and crates.io serve now, or what was already locked — did not certify.
+   For every crate (in the graph or not), every criterion and every version, used or not. *)
+Theorem C11_updates_never_widen_what_is_certified : forall inp s mode,
+  (forall name, um_search (mode name) <> RegenerateExemptions) ->
+  forall name c v, certified (st_criteria s) (store_for (update_store inp s mode) name) c v ->
+                   certified (st_criteria s) (store_for s name) c v.
+Proof. exact update_certifies_nothing_new. Qed.
+(* ... instantiated for the commands (modes re-read from main.rs by the translator) *)
+Theorem C11_check_never_widens : forall locked inp s s1 name c v,
+  cmd_check locked inp s = Some s1 -> certified (st_criteria s) (store_for s1 name) c v -> certified (st_criteria s) (store_for s name) c v.
+Proof.
+  intros locked inp s s1 name c v H. unfold cmd_check in H. destruct (has_errors (resolve inp s)); [discriminate|].
+  destruct locked; inversion H; subst s1; [auto|]. apply update_certifies_nothing_new. intros n. cbn. discriminate.
+Qed.
+Theorem C11_prune_never_widens : forall a b c0 inp s name c v,
+  certified (st_criteria s) (store_for (cmd_prune a b c0 inp s) name) c v -> certified (st_criteria s) (store_for s name) c v.
+Proof. intros a b c0 inp s. apply update_certifies_nothing_new. intros n. destruct a, b, c0; cbn; discriminate. Qed.
+Theorem C11_regenerate_imports_never_widens : forall inp s name c v,
+  certified (st_criteria s) (store_for (cmd_regenerate_imports inp s) name) c v -> certified (st_criteria s) (store_for s name) c v.
+Proof. intros inp s. apply update_certifies_nothing_new. intros n. cbn. discriminate. Qed.
+Theorem C11_cleanups_never_widen : forall target inp s name c v,
+  (certified (st_criteria s) (store_for (cleanup_certify target inp s) name) c v -> certified (st_criteria s) (store_for s name) c v) /\
+  (certified (st_criteria s) (store_for (cleanup_trust target inp s) name) c v -> certified (st_criteria s) (store_for s name) c v) /\
+  (certified (st_criteria s) (store_for (update_store inp s (fun _ => mode_import)) name) c v -> certified (st_criteria s) (store_for s name) c v).
+Proof.
+  intros target inp s name c v. repeat split; apply update_certifies_nothing_new; intros n; try (destruct (N.eqb n target)); cbn; discriminate.
+Qed.
+
+(* the premise is met by a real update that does change the store: prune drops the unused exemption of "a" *)
+Example C11_never_widens_nonvacuous :
+  ps_exemptions (store_for (cmd_prune false false false w_graph w_store) 0) = [] /\
+  length (ps_exemptions (store_for w_store 0)) = 1%nat /\
+  has_errors (resolve w_graph (cmd_prune false false false w_graph w_store)) = false.
+Proof. vm_compute. auto. Qed.
+
 (* the modes the commands use (read from main.rs by the translator): only init and
    regenerate-exemptions search in RegenerateExemptions mode *)
 Theorem C11_modes_that_may_add_exemptions :
@@ -110,3 +147,8 @@ Print Assumptions C11_unpublished_from_live.
 Print Assumptions C11_exemptions_only_narrowed.
 Print Assumptions C11_no_exemptions_flag.
 Print Assumptions C11_modes_that_may_add_exemptions.
+Print Assumptions C11_updates_never_widen_what_is_certified.
+Print Assumptions C11_check_never_widens.
+Print Assumptions C11_prune_never_widens.
+Print Assumptions C11_regenerate_imports_never_widens.
+Print Assumptions C11_cleanups_never_widen.
